@@ -17,7 +17,8 @@ RULE = ("Completed traced runs of both front ends: the shared end-to-end generat
         "labels (for joint runs a run continuing across a series boundary may be read as one or two runs: both accepted), "
         "relative tolerance 1e-9 of the sum of absolute terms; the value must be finite whenever all MRFs are PD. "
         "Non-trivial = >= 2 runs of labels and >= 2 clusters used; distinct by SHA-1 of the case."
-        " S_k is the covariance cluster k was fitted to: the argument of the optimiser call that produced the stored Theta_k (recorded), normally identical to the state's record.")
+        " S_k is the covariance cluster k was fitted to: the argument of the optimiser call that produced the stored Theta_k (recorded), normally identical to the state's record."
+        ' Pinned: 132000 and 140001 alternating rows (more than 65535 runs of one label).')
 ASSUMPTIONS = ["final model state observed through the guarded run_end hook", "runs whose final MRFs are not PD are discarded here and decided by C03"]
 
 
@@ -98,11 +99,29 @@ def _pinned_wide():
             dict(base, N=6, W=10, lengths=[200], sensor_scales=[1e5, 1e6, 1e5, 1e6, 1e5, 1e6], data_seed=5)]
 
 
+def _many_runs(tier):
+    # more than 2**16 (and, thorough, 2**17) maximal runs of one label: counters of the run loop in a narrow integer type wrap there
+    base = {"front": "single", "N": 1, "W": 1, "K": 2, "lengths": [132000], "regimes": 2, "mean_spread": 2.0, "data_seed": 5,
+            "np_seed": 5, "py_seed": 5, "beta": 0.0, "beta_form": "scalar", "lam": 0.11, "lam_form": "scalar", "limit": 1,
+            "m": 5, "biased": False, "eps": 0, "num_processors": 1, "boundary_regime_flip": False, "alternating_rows": True}
+    yield base
+    yield dict(base, lengths=[140001], data_seed=7, biased=True)
+    if tier == "thorough":
+        yield dict(base, lengths=[270000], data_seed=6)
+
+
+def execute_many_runs(case, t):
+    execute(case, t)
+    t.cls("more_than_65535_runs_of_one_label")
+
+
 SUBCHECKS = [
     SubCheck(name="bic_vs_definition", strategy=lambda: gen.e2e_config(betas=(0.0, 0.5, 2.0, 10.0, 50.0),
                                                                        eps_values=(0, 0, 0, 1e-12, 1e-9, 1e-7, 1e-5, 3e-5, 1e-3), scales=True, scale_prob=0.3), execute=execute,
              budget={"quick": 128, "thorough": 3000}, shards={"quick": 16, "thorough": 8}, modes=E2E_MODES,
              min_nontrivial_fraction=0.3),
+    SubCheck(name="bic_very_many_label_runs", enumerate=_many_runs, execute=execute_many_runs, exhaustive=False,
+             budget={"quick": 1, "thorough": 1}, shards={"quick": 1, "thorough": 2}, modes=["jit"], ambient=()),
     SubCheck(name="bic_wide_scales_large_NW", strategy=_wide, execute=execute, pinned=_pinned_wide,
              budget={"quick": 32, "thorough": 800}, shards={"quick": 16, "thorough": 16}, modes={"quick": ["nojit"], "thorough": ["nojit"]},
              min_nontrivial_fraction=0.0),
